@@ -96,6 +96,8 @@ def expand_jobs(inputs, apis, rng, conns=None, formats=True):
                     j.update(api=api, conn=conn)
                     if api == "readout":
                         j["alt"] = [c % impl.W2 + impl.W2 * rng.randrange(2) for c in j["codes"]]
+                if conn == "all" and rng.random() < 0.3:
+                    j["default_conn"] = True
                 jobs.append(j)
     return jobs
 
